@@ -62,6 +62,17 @@ class Harness:
                     return c
         return None
 
+    def absent_wide(self, salt):
+        """an absent key OUTSIDE the key dtype's range that aliases a present key modulo 2**bits (int64 queries)"""
+        bits = np.dtype(self.dt).itemsize * 8
+        if bits >= 64:
+            return None
+        base = self.key(salt)
+        for c in (base + 2**bits, base - 2**bits, base + 2 * 2**bits):
+            if c not in self.m:
+                return c
+        return None
+
     def apply(self, op):
         self.trace.append(op)
         self.labels.append("op:" + op[0])
@@ -156,7 +167,11 @@ class Harness:
 
     def op_setv(self, which, idx, v, as_):
         tab, model = self.tab(which)
-        ks = sorted({self.key(i) for i in idx}, key=lambda k: idx.index(next(i for i in idx if self.key(i) == k)))
+        ks = [self.key(i) for i in idx]     # repeats allowed: every addressed key gets the scalar
+        if len(set(ks)) < len(ks):
+            self.labels.append("setv:repeated-keys")
+        if len(ks) == len(model):
+            self.labels.append("setv:as-long-as-key-set")
         v = self.value(v, which)
         r = lib(tab.__setitem__, self.karr(ks, as_), v)
         if not r.ok:
@@ -191,13 +206,18 @@ class Harness:
 
     def op_contains(self, idx, salts):
         qs = [self.key(i) for i in idx]
+        wide = False
         for s in salts:
-            a = self.absent(s)
+            a = self.absent_wide(s) if s % 3 == 0 else self.absent(s)
             if a is not None:
+                wide = wide or s % 3 == 0
                 qs.insert(s % (len(qs) + 1), a)
         if not qs:
             return
-        got = lib(lambda: self.t.contains(np.array(qs, dtype=self.dt)))
+        # queries beyond the key dtype's range travel as int64 (what a Python list of ints becomes)
+        got = lib(lambda: self.t.contains(np.array(qs, dtype=np.int64 if wide else self.dt)))
+        if wide:
+            self.labels.append("contains:wide-absent")
         exp = [q in self.m for q in qs]
         if not got.ok or [bool(x) for x in np.asarray(got.value)] != exp:
             raise Violation("contains", queries=qs, expected=exp, got=got.brief())
@@ -205,12 +225,16 @@ class Harness:
 
     def op_getmiss(self, which, idx, salt, pos):
         tab, model = self.tab(which)
-        a = self.absent(salt)
+        wide = salt % 3 == 0 and self.absent_wide(salt) is not None
+        a = self.absent_wide(salt) if wide else self.absent(salt)
         if a is None:
             return
         ks = [self.key(i) for i in idx]
+        if wide:
+            ks = [k for k in ks if abs(k) < 2**62]
+            self.labels.append("getmiss:wide-absent")
         ks.insert(pos % (len(ks) + 1), a)
-        got = lib(lambda: tab[np.array(ks, dtype=self.dt)])
+        got = lib(lambda: tab[np.array(ks, dtype=np.int64 if wide else self.dt)])
         if got.ok:
             raise Violation("lookup-with-absent-key:answered", keys=ks, absent=a, got=got.brief(),
                             table="scalar-valued" if not hasattr(getattr(tab, "_values", None), "ravel") else "array-valued")
@@ -339,7 +363,7 @@ def machine(tier, sink):
         def set1(self, which, i, v, as_np):
             self.do(["set1", which, i, v, as_np])
 
-        @rule(which=WHICH, idx=st.lists(IDX, min_size=1, max_size=6), v=VAL, as_=st.sampled_from(["array", "list"]))
+        @rule(which=WHICH, idx=st.lists(IDX, min_size=1, max_size=12), v=VAL, as_=st.sampled_from(["array", "list"]))
         def setv(self, which, idx, v, as_):
             self.do(["setv", which, idx, v, as_])
 
